@@ -251,12 +251,16 @@ pub async fn run_case(backend: &str, seed: u64, rep: &mut Report, ops: &mut Vec<
     // a saved copy of the default folder's log for a later forced overwrite (C02: force merges)
     let mut saved: Option<(sos_core::events::patch::FolderDiff, BTreeMap<SecretId, String>, usize)> = None;
     let mut edits_since_save = 0usize;
+    let mut birth: BTreeMap<SecretId, usize> = BTreeMap::new();
     let n_ops = rng.range(6, 22);
     for step in 0..n_ops {
         let mut a = w.devices[0].lock().await;
         let folder = if !extra_folders.is_empty() && rng.chance(1, 3) { *rng.pick(&extra_folders) } else { default };
         let opts = AccessOptions { folder: Some(folder), ..Default::default() };
-        let in_folder: Vec<SecretId> = live.get(&folder).map(|m| m.keys().copied().collect()).unwrap_or_default();
+        // secrets in order of first appearance (not of their random ids), so that a case seed replays the same history
+        for m in live.values() { for k in m.keys() { let n = birth.len(); birth.entry(*k).or_insert(n); } }
+        let mut in_folder: Vec<SecretId> = live.get(&folder).map(|m| m.keys().copied().collect()).unwrap_or_default();
+        in_folder.sort_by_key(|k| birth.get(k).copied().unwrap_or(usize::MAX));
         let kind = rng.below(100);
         if std::env::var("HTRACE").is_ok() { eprintln!("step {step} kind {kind} script-last {:?}", cx.script.last()); }
         let mut model_line: Option<String> = None;
